@@ -93,6 +93,7 @@ def make_pen(spec):
 
 REG = {}          # tag -> Rec
 CURRENT = []      # stack of tags whose _Step is executing (for numpy.argsort)
+CURSOLVER = []    # stack of solver instances inside _Step / _decorate_objective (for constraints.and_)
 
 
 class Rec:
@@ -270,7 +271,11 @@ class Instrumented:
                 orig = cls.__dict__["_decorate_objective"]
                 def mkd(orig):
                     def deco(self, cost, ExtraArgs=None):
-                        wrapped = orig(self, cost, ExtraArgs)
+                        CURSOLVER.append(self)
+                        try:
+                            wrapped = orig(self, cost, ExtraArgs)
+                        finally:
+                            CURSOLVER.pop()
                         tag = getattr(self, "_verif_tag", None)
                         rec = REG.get(tag)
                         if rec is None:
@@ -288,11 +293,11 @@ class Instrumented:
                     rec = REG.get(tag)
                     if rec is not None:
                         rec.nstep += 1
-                    CURRENT.append(tag)
+                    CURRENT.append(tag); CURSOLVER.append(self)
                     try:
                         return orig_step(self, *a, **k)
                     finally:
-                        CURRENT.pop()
+                        CURRENT.pop(); CURSOLVER.pop()
                 return counted
             patch(cls, "_Step", mks(orig_step))
         from mystic.abstract_solver import AbstractSolver
@@ -307,7 +312,11 @@ class Instrumented:
         # the abstract _decorate_objective is used by Powell
         origD = AbstractSolver.__dict__["_decorate_objective"]
         def decoA(self, cost, ExtraArgs=None):
-            wrapped = origD(self, cost, ExtraArgs)
+            CURSOLVER.append(self)
+            try:
+                wrapped = origD(self, cost, ExtraArgs)
+            finally:
+                CURSOLVER.pop()
             tag = getattr(self, "_verif_tag", None)
             rec = REG.get(tag)
             if rec is None:
@@ -317,6 +326,28 @@ class Instrumented:
             self._cost = (w, self._cost[1], self._cost[2])
             return w
         patch(AbstractSolver, "_decorate_objective", decoA)
+        # tight / clip strict ranges: the solvers apply constraints.and_(user constraints, bounds function, onfail=bounds function) wherever
+        # they apply "the constraints": that composite is recorded as the constraints table of the configuration in force
+        import mystic.constraints as mc
+        orig_and = mc.and_
+        def and_rec(*cs, **kw):
+            f = orig_and(*cs, **kw)
+            sv = CURSOLVER[-1] if CURSOLVER else None
+            if sv is None or "onfail" not in kw:
+                return f
+            if not (getattr(sv, "_useTightRange", None) or getattr(sv, "_useClipRange", None) is not None):
+                return f
+            rec = REG.get(getattr(sv, "_verif_tag", None))
+            if rec is None:
+                return f
+            k = "eff:%s" % rec.state.get("eff_k")
+            def g(x):
+                xin = _vec(x)
+                y = f(x)
+                rec.tabs["cons"].append((xin, _vec(y), k))
+                return y
+            return g
+        patch(mc, "and_", and_rec)
         import mystic.scipy_optimize as so
         orig_ls = so._linesearch_powell
         def ls_rec(func, p, xi, *a, **k):
@@ -441,8 +472,10 @@ def apply_op(solver, rec, op, k, case_tag):
         solver.SetConstraints(None if ident else ConsFn(op["cons"], k, case_tag))
         st["inplace"] = bool(op["cons"].get("inplace"))
         st["cons_k"] = k
+        st["eff_k"] = k
     elif o == "SetStrictRanges":
         st["box"] = None if op["lo"] is None else k
+        st["eff_k"] = k
         if op["lo"] is None:
             solver.SetStrictRanges(False, False)
         else:
@@ -588,9 +621,19 @@ def term_coq(t):
 def modelled(case):
     """is the whole script inside the modelled fragment?"""
     term = False
+    tightish = any(op["op"] == "SetStrictRanges" and op.get("lo") is not None and (op.get("tight") or op.get("clip") is not None) for op in case["ops"])
     for op in case["ops"]:
-        if op["op"] == "SetStrictRanges" and (op.get("tight") is not None or op.get("clip") is not None):
-            return False
+        if op["op"] == "SetStrictRanges" and op.get("clip") is False:
+            return False        # impose_bounds(clip=False) re-draws points at random: not a function of its argument
+        if op["op"] == "SetStrictRanges" and op.get("tight") is False and op.get("clip") is not None:
+            return False        # rejected by SetStrictRanges (ValueError)
+        if tightish and op["op"] == "SetConstraints" and op["cons"].get("kind") == "pin":
+            # a pin that conflicts with the box makes constraints.and_ randomise (not a function of its argument either)
+            for b in case["ops"]:
+                if b["op"] == "SetStrictRanges" and b.get("lo") is not None:
+                    i = op["cons"]["i"] % len(b["lo"])
+                    if not (b["lo"][i] <= op["cons"]["c"] <= b["hi"][i]):
+                        return False
         if op["op"] == "SetTermination":
             term = True
             if op["term"].get("kind") == "or_collapse":
@@ -622,6 +665,7 @@ def script_coq(case, out):
         return "(%s %s %s %s %s)" % (inmk, fll(i["cands"]), opt(i["deco"], fll), blit(i.get("inplace", False)),
                                     "(%s : list nat)" % lst(i.get("perm") or [], natlit))
     ops = []
+    tight_on, user_cons = False, "(fun x => x)"
     for k, (op, res) in enumerate(zip(case["ops"], out["opres"])):
         o = op["op"]
         if o == "SetObjective":
@@ -630,9 +674,19 @@ def script_coq(case, out):
             ops.append("@OSetPenalty NumF _ (lookup_e %s)" % tab_pen(k) if op["pen"]["kind"] != "none" else "@OSetPenalty NumF _ (fun _ => 0%float)")
         elif o == "SetConstraints":
             ident = op["cons"]["kind"] == "ident" and not op["cons"].get("inplace")
-            ops.append("@OSetConstraints NumF _ (fun x => x)" if ident else "@OSetConstraints NumF _ (lookup_v %s)" % tab_cons(k))
+            user_cons = "(fun x => x)" if ident else "(lookup_v %s)" % tab_cons(k)
+            # under tight / clip ranges the function applied wherever "the constraints" are is the recorded composite of this configuration
+            ops.append("@OSetConstraints NumF _ %s" % ("(lookup_v %s)" % tab_cons("eff:%d" % k) if tight_on else user_cons))
         elif o == "SetStrictRanges":
-            ops.append("@OSetStrictRanges NumF _ %s" % ("None" if op["lo"] is None else "(Some (%s, %s))" % (fl(op["lo"]), fl(op["hi"]))))
+            box = "None" if op["lo"] is None else "(Some (%s, %s))" % (fl(op["lo"]), fl(op["hi"]))
+            now_tight = op["lo"] is not None and bool(op.get("tight") or op.get("clip") is not None)
+            if now_tight:
+                ops.append("@OSetRangesCons NumF _ %s (lookup_v %s)" % (box, tab_cons("eff:%d" % k)))
+            elif tight_on:      # back to the default mode (or no ranges): the user's constraints again
+                ops.append("@OSetRangesCons NumF _ %s %s" % (box, user_cons))
+            else:
+                ops.append("@OSetStrictRanges NumF _ %s" % box)
+            tight_on = now_tight
         elif o == "SetReducer":
             ops.append("@OSetReducer NumF _ %s" % {None: "None", "sum": "(Some red_sum)", "max": "(Some red_max)"}[op["red"]])
         elif o == "SetLimits":
